@@ -283,8 +283,10 @@ impl IRBuilder {
     /// Build a single scan node
     ///
     /// `atom_idx` is the index of the body predicate, used to generate unique
-    /// column names for constants. This prevents naming collisions when the same
-    /// relation appears multiple times with different constants (e.g., self-joins).
+    /// column names for every argument that is not a variable (constants,
+    /// wildcards, literals, expressions). Columns are joined by name, so a name
+    /// shared by two atoms - e.g. the wildcards of `e(X,_), e(Y,_)` - would turn
+    /// into a join key.
     fn build_scan(&self, atom: &Atom, atom_idx: usize) -> Result<IRNode, String> {
         // Schema comes from the atom's arguments (variable bindings)
         // Each occurrence of the same relation can have different variable names
@@ -295,7 +297,7 @@ impl IRBuilder {
             .map(|(i, term)| match term {
                 Term::Variable(v) => v.clone(),
                 Term::Constant(_) => format!("_const_a{atom_idx}_c{i}"),
-                Term::Placeholder => format!("_ph_{}_{}", atom.relation, i),
+                Term::Placeholder => format!("_ph_{}_{}_a{atom_idx}", atom.relation, i),
                 // Aggregates in body atoms refer to the variable they aggregate
                 Term::Aggregate(_, v) => v.clone(),
                 // Arithmetic expressions - use the variables they reference
@@ -304,12 +306,12 @@ impl IRBuilder {
                     let vars = expr.variables();
                     vars.into_iter()
                         .next()
-                        .unwrap_or_else(|| format!("expr{i}"))
+                        .unwrap_or_else(|| format!("expr{i}_a{atom_idx}"))
                 }
                 // Function calls - generate a name
-                Term::FunctionCall(_, _) => format!("func{i}"),
+                Term::FunctionCall(_, _) => format!("func{i}_a{atom_idx}"),
                 // Vector literals - generate a name
-                Term::VectorLiteral(_) => format!("vec{i}"),
+                Term::VectorLiteral(_) => format!("vec{i}_a{atom_idx}"),
                 // Float constants - generate a name
                 Term::FloatConstant(_) => format!("_float_a{atom_idx}_c{i}"),
                 // String constants - generate a name
@@ -319,7 +321,7 @@ impl IRBuilder {
                 // Field access - use the field name
                 Term::FieldAccess(_, field) => field.clone(),
                 // Record pattern - generate a name
-                Term::RecordPattern(_) => format!("rec{i}"),
+                Term::RecordPattern(_) => format!("rec{i}_a{atom_idx}"),
             })
             .collect();
 
